@@ -354,13 +354,25 @@ def monitors(ctx, hs, impls, stream, once=True, tag="mon"):
 
 def getters_monitor(ctx, hs, impls, stream):
     """cluster and task getters before/after every schedule() call, compared inside Coq"""
+    def flat(v, out):
+        # nested integers -> flat integer list with (marker, length) prefixes: injective, cheap to parse
+        if isinstance(v, list):
+            out += [-99, len(v)]
+            for x in v:
+                flat(x, out)
+        else:
+            out.append(int(v))
+        return out
+
+    def zl(xs):
+        return "[" + ";".join(str(x) if x >= 0 else "(%d)" % x for x in xs) + "]"
     cases, where = [], []
     for hi, im in enumerate(impls):
         for k, r in enumerate(im["steps"]):
-            cases.append("(%s, %s)" % (core.gval(r["getters"][0]), core.gval(r["getters"][1])))
+            cases.append("(%s, %s)" % (zl(flat(r["getters"][0], [])), zl(flat(r["getters"][1], []))))
             where.append((hi, k))
     try:
-        bad = ctx.monitor_stream(stream, "", "val * val", "(fun p => val_eqb (fst p) (snd p))", cases, shard=150)
+        bad = ctx.monitor_stream(stream, HEADER, "list Z * list Z", "(fun p => zlist_eqb (fst p) (snd p))", cases, shard=100)
     except core.ModelEvalError as e:
         ctx.broken.append({"kind": "monitor", "name": stream, "detail": str(e)[-600:]})
         bad = [i for i, (hi, k) in enumerate(where) if not impls[hi]["steps"][k]["unchanged"]]
